@@ -110,7 +110,8 @@ REGISTRY["C18"] = {
         K("c18::c18_expect_window_v4_split_16_12", "same, header delivered 16 + 12", _win, EX, cbmc_args=FS256),
         K("c18::c18_expect_window_v6_one_segment", "52-byte v6 header (all addresses/ports) + 12 payload bytes in one segment", _win, EX, cbmc_args=FS256),
         K("c18::c18_expect_window_v6_split_29", "same, delivered 29 + rest (crosses the 28-byte stage)", _win, EX, cbmc_args=FS256),
-        K("c18::c18_expect_window_three_pieces", "v4: [0,12,4,..] [13,0,15,..] [27,1,..]; v6: [12,16,24] [28,0,24] [51,1,..] incl. empty wake-ups", _win, EX, cbmc_args=FS256),
+        K("c18::c18_expect_window_v4_13_0_15", "v4 header delivered 13 + (empty wake-up) + 15 + payload", _win, EX, cbmc_args=FS256),
+        K("c18::c18_expect_window_three_pieces", "v4: [0,12,4,..] [13,0,15,..] [27,1,..]; v6: [12,16,24] [28,0,24] [51,1,..] incl. empty wake-ups", _win, EX, tier="thorough", cbmc_args=FS256),
         K("c18::c18_expect_window_v4_all_cuts", "v4 header cut at every position 0..28", _win, EX, tier="thorough", cbmc_args=FS256),
         K("c18::c18_expect_window_v6_boundary_cuts", "v6 header cut at {0,1,12,13,16,27,28,29,40,51,52}", _win, EX, tier="thorough", cbmc_args=FS256),
         K("c18::c18_expect_bad_signature_first_byte_closes", "any wrong first signature byte, 1-byte first segment", "malformed => Close at once, no address recorded, never Upgrade", EX, cbmc_args=FS256),
@@ -209,7 +210,7 @@ REGISTRY["C14"] = {
           "issued id <= 2^31-1, strictly increasing, parity by role from an even watermark, None is final", ["lib/src/protocol/mux/h2.rs"], min_covers=2),
         K("c14::c14_connection_config_clamps", "all u32 triples / optional window; unwind 3",
           "advertised connection window in [65535, 2^31-1], max concurrent streams in [1,10000], shrink ratio >= 2; in-range values kept", ["lib/src/protocol/mux/h2.rs"]),
-        K("c14::c14_settings_roundtrip", "all H2Settings values; unwind 10", "gen_settings output (57 bytes) parses back to the 8 (id,value) pairs sozu meant", CV + ["lib/src/protocol/mux/h2.rs"]),
+        K("c14::c14_settings_roundtrip", "all H2Settings values; unwind 10", "gen_settings output (57 bytes) parses back to the 8 (id,value) pairs sozu meant", CV + ["lib/src/protocol/mux/h2.rs"], tier="thorough"),
     ],
 }
 
